@@ -7,6 +7,7 @@ separated words otherwise; the pysnmp module is valid Python and the string its 
 the class equals the source as a word sequence.
 """
 import json
+import re
 
 from mc import env, mibspec, pysnmp_rec, refir
 
@@ -145,13 +146,13 @@ def run_slot(slot, text, gen_texts, identity, sigbase, source='memory'):
                         vs.append(('%s|json|emitted-without-genTexts|%s' % (sigbase, k), '%r' % (ent,)))
                 continue
             got = got or ''
-            filtered = jkey not in ('displayhint', 'productrelease')
-            if identity and filtered:
-                ok = got == text
-            elif identity:
-                ok = got == text or words(got) == words(text)
+            if identity:
+                ok = got == text                     # layout kept: exactly the source text, for every text-bearing clause
             else:
                 ok = words(got) == words(text)
+                if ok and re.search(r'[\t\n\r\x0b\x0c]|  ', got):
+                    # layout not kept: white space comes out normalised - for every text-bearing clause alike
+                    vs.append(('%s|json|layout-kept-although-not-asked-for' % sigbase, 'source %r\ndocument %r' % (text, got)))
             if not ok:
                 vs.append(('%s|json|text-differs' % sigbase, 'source %r\ndocument %r' % (text, got)))
         else:
